@@ -1776,15 +1776,18 @@ impl JsObject {
         if let ExoticObject::Array { ref mut elements } = self.exotic {
             if let PropertyKey::Index(idx) = key {
                 let idx = idx as usize;
-                // Extend array with undefined if needed (dense array)
-                if idx >= elements.len() {
-                    elements.resize(idx + 1, JsValue::Undefined);
+                // Extend array with undefined if needed (dense array); an index too far out to
+                // materialise the gap is kept as an ordinary property instead
+                if idx < MAX_DENSE_ARRAY_LENGTH {
+                    if idx >= elements.len() {
+                        elements.resize(idx + 1, JsValue::Undefined);
+                    }
+                    // Safe: we just resized to ensure idx is in bounds
+                    if let Some(slot) = elements.get_mut(idx) {
+                        *slot = value;
+                    }
+                    return;
                 }
-                // Safe: we just resized to ensure idx is in bounds
-                if let Some(slot) = elements.get_mut(idx) {
-                    *slot = value;
-                }
-                return;
             }
             // Setting length truncates or extends the array
             if let PropertyKey::String(ref s) = key
@@ -1792,7 +1795,9 @@ impl JsObject {
             {
                 if let JsValue::Number(n) = value {
                     let new_len = n as usize;
-                    elements.resize(new_len, JsValue::Undefined);
+                    if new_len <= MAX_DENSE_ARRAY_LENGTH {
+                        elements.resize(new_len, JsValue::Undefined);
+                    }
                 }
                 return;
             }
@@ -2446,6 +2451,13 @@ impl<'a> Iterator for PropertyStorageIterMut<'a> {
         }
     }
 }
+
+/// Longest string a built-in will build (as in V8); longer requests are a RangeError
+pub const MAX_STRING_LENGTH: usize = (1 << 29) - 24;
+
+/// Arrays are stored densely, so a length is also an allocation: the longest array that
+/// `new Array(n)`, `length = n` or an index assignment will materialise
+pub const MAX_DENSE_ARRAY_LENGTH: usize = 1 << 26;
 
 /// Environment data stored in Environment exotic objects.
 ///
